@@ -722,7 +722,7 @@ func submit(o *hx.Out, k int, w *world, tx *transaction.Transaction, tag string)
 var invKinds = []string{
 	"none", "none", "none", "none", "none", "none",
 	"fee-1", "fee-1", "fee-1",
-	"fee+", "expired", "vub-far", "vub-max", "blocked", "bad-script", "sysfee-big", "on-chain", "stub-common", "stub-disjoint", "stub-old", "stub-multi", "stub-multi", "stub-multi",
+	"fee+", "expired", "vub-far", "vub-max", "blocked", "bad-script", "sysfee-big", "on-chain", "stub-common", "stub-disjoint", "stub-old", "stub-2nd", "stub-3rd", "stub-multi", "stub-multi", "stub-multi",
 	"bad-sig", "missing-sig", "wrong-key", "empty-verif", "swapped-sigs", "nvb-future", "conflicts-dup", "conflicts-onchain",
 	"hp-no-committee", "reserved", "oracle", "notary", "no-funds", "dup-signers", "below-need", "pool-dup", "two", "noncanon", "noncanon-vm", "stale", "stale", "stale",
 	"contract", "contract", "contract-fee-1", "contract-false",
@@ -1077,7 +1077,7 @@ func runAdmit(o *hx.Out, k int, r *prng.R, inv string) {
 		w.addBlock(tx)
 		rec = recInfo{kind: "T"}
 		expect = "reject"
-	case "stub-common", "stub-disjoint", "stub-old":
+	case "stub-common", "stub-disjoint", "stub-old", "stub-2nd", "stub-3rd":
 		var ysigners []*acct
 		if inv == "stub-disjoint" {
 			for _, a := range []*acct{s.A, s.B, s.C} {
@@ -1102,7 +1102,7 @@ func runAdmit(o *hx.Out, k int, r *prng.R, inv string) {
 			}
 		}
 		y := s.newCand(r, ysigners, 0)
-		y.tx.Attributes = []transaction.Attribute{{Type: transaction.ConflictsT, Value: &transaction.Conflicts{Hash: tx.Hash()}}}
+		y.tx.Attributes = conflictsNaming(r, o, tx.Hash(), map[string]int{"stub-2nd": 1, "stub-3rd": 2}[inv]-b2i(inv != "stub-2nd" && inv != "stub-3rd"))
 		y.finish(0)
 		b := w.addBlock(y.tx)
 		rec = recInfo{kind: "S", index: b.Index}
@@ -1154,7 +1154,7 @@ func runAdmit(o *hx.Out, k int, r *prng.R, inv string) {
 				}
 			}
 			y := s.newCand(r, ys, 0)
-			y.tx.Attributes = []transaction.Attribute{{Type: transaction.ConflictsT, Value: &transaction.Conflicts{Hash: tx.Hash()}}}
+			y.tx.Attributes = conflictsNaming(r, o, tx.Hash(), -1)
 			y.finish(0)
 			b := w.addBlock(y.tx)
 			oc := onChainConflict{index: b.Index}
@@ -1400,6 +1400,7 @@ func postState(o *hx.Out, k int, r *prng.R, c *cand, decoded *transaction.Transa
 		mv = []string{"execfee-up", "execfee-up", "blocks", "feeperbyte-up"}[r.Intn(4)]
 	}
 	var lastBlk []*transaction.Transaction // the transactions of the last block added
+	conflictBySigner := false
 	setPol := func(method string, args ...any) {
 		lastBlk = w.addBlock(w.policyTx(method, args...)).Transactions
 	}
@@ -1470,7 +1471,8 @@ func postState(o *hx.Out, k int, r *prng.R, c *cand, decoded *transaction.Transa
 		// a transaction naming the candidate in a Conflicts attribute arrives in a block made elsewhere (never through
 		// this node's pool), signed by: the candidate's sender, a co-signer only, both, or somebody who does not sign it
 		ok := func(a *acct) bool {
-			return !a.contract && a != s.NC && a != s.committee && !(a == s.C && s.blockedC)
+			// the account pays for the conflicting transaction: it must be one of the funded ones
+			return (a == s.A || a == s.B || a == s.C) && !(a == s.C && s.blockedC)
 		}
 		var senderA, coA, strangerA *acct
 		if ok(signers[0]) {
@@ -1509,8 +1511,9 @@ func postState(o *hx.Out, k int, r *prng.R, c *cand, decoded *transaction.Transa
 			break
 		}
 		o.Count("stale:conflict-signed-by=" + ck)
+		conflictBySigner = ck != "stranger"
 		y := s.newCand(r, ys, 0)
-		y.tx.Attributes = []transaction.Attribute{{Type: transaction.ConflictsT, Value: &transaction.Conflicts{Hash: tx.Hash()}}}
+		y.tx.Attributes = conflictsNaming(r, o, tx.Hash(), -1)
 		y.finish(0)
 		b := w.addBlock(y.tx)
 		lastBlk = b.Transactions
@@ -1564,6 +1567,9 @@ func postState(o *hx.Out, k int, r *prng.R, c *cand, decoded *transaction.Transa
 	v2 := classify(w.bc.VerifyTx(decoded))
 	o.Line(line, v2)
 	o.Count(fmt.Sprintf("stale:relevant=%v,verify=%s", rel, v2))
+	if mv == "conflict-onchain" && conflictBySigner && v2 == "ok" {
+		o.Fail("accepted-invalid:onchain-conflict-of-signer", k, "%s: VerifyTx accepts the transaction although an on-chain transaction of one of its signers names it in one of its Conflicts attributes", inv)
+	}
 	chainPart := v2 != "ok" && v2 != "err:insufficient-funds" && v2 != "err:pool-conflict"
 	if rel && chainPart {
 		key := "relevant-but-inadmissible"
@@ -1592,4 +1598,25 @@ func needLine(o *hx.Out, w *world, t *transaction.Transaction, verdict string) {
 	af := w.bc.CalculateAttributesFee(t)
 	need := int64(t.Size())*w.bc.FeePerByte() + af
 	o.Line(fmt.Sprintf("needm %d %d %d %d", t.Size(), w.bc.FeePerByte(), af, t.NetworkFee), fmt.Sprintf("%d %d", need, b2i(verdict == "err:small-netfee")))
+}
+
+// conflictsNaming builds the Conflicts attributes of an on-chain transaction: n of them (1..3 unless pos forces more),
+// all naming random hashes except the one at position pos (0-based; -1 = random), which names h. dao.StoreAsTransaction
+// has to write the per-signer records for every one of them, not only for the first.
+func conflictsNaming(r *prng.R, o *hx.Out, h util.Uint256, pos int) []transaction.Attribute {
+	n := r.Range(1, 3)
+	if pos < 0 {
+		pos = r.Intn(n)
+	}
+	n = max(n, pos+1)
+	var as []transaction.Attribute
+	for i := 0; i < n; i++ {
+		x := h
+		if i != pos {
+			copy(x[:], r.Bytes(32))
+		}
+		as = append(as, transaction.Attribute{Type: transaction.ConflictsT, Value: &transaction.Conflicts{Hash: x}})
+	}
+	o.Count(fmt.Sprintf("onchain-conflicts:n=%d,pos=%d", n, pos))
+	return as
 }
